@@ -144,6 +144,11 @@ struct Hand {
     batches: Vec<u32>,
     /// the application also reaps every completion by polling get_next_cqe
     reap: bool,
+    /// kernel-owned bits of the SQ flags word other than NEED_WAKEUP that are set from the start
+    /// (IORING_SQ_CQ_OVERFLOW = 2, IORING_SQ_TASKRUN = 4); the poller only ever ORs / clears NEED_WAKEUP
+    extra_bits: u32,
+    /// a third thread (the kernel's completion side) sets and clears IORING_SQ_CQ_OVERFLOW at any time
+    toggler: bool,
 }
 
 impl Hand {
@@ -245,13 +250,19 @@ impl Hand {
 
 impl Model for Hand {
     fn n_threads(&self) -> usize {
-        2
+        if self.toggler {
+            3
+        } else {
+            2
+        }
     }
     fn setup(&self) {
         unsafe { *wmcore::sync::atomic::SC_FENCE_WORD.as_ptr() = 0 };
         ST.with(|s| {
             let mut s = s.borrow_mut();
-            s.mem = Some(new_mem());
+            let m = new_mem();
+            unsafe { *m.sq_flags.as_ptr() = self.extra_bits };
+            s.mem = Some(m);
             s.consumed.clear();
             s.reaped.clear();
             s.flushed = 0;
@@ -261,10 +272,15 @@ impl Model for Hand {
         });
     }
     fn thread(&self, tid: usize) {
-        if tid == 0 {
-            self.app()
-        } else {
-            self.poller()
+        match tid {
+            0 => self.app(),
+            1 => self.poller(),
+            _ => {
+                // io_cqring_event_overflow() / the overflow flush: atomic_or / atomic_andnot of IORING_SQ_CQ_OVERFLOW
+                let m = mem();
+                m.sq_flags.fetch_or(2, Ordering::Relaxed);
+                m.sq_flags.fetch_and(!2, Ordering::Relaxed);
+            }
         }
     }
     fn finish(&self, end: &End) -> String {
@@ -287,14 +303,52 @@ impl Model for Hand {
 fn programs(th: bool) -> Vec<(String, Hand, Budget)> {
     let mut v = Vec::new();
     let b = |p, w| Budget { p, d: 0, w };
-    v.push(("one-entry".to_string(), Hand { entries: 2, batches: vec![1], reap: false }, b(if th { 4 } else { 3 }, 2)));
-    v.push(("one-entry+reap".to_string(), Hand { entries: 2, batches: vec![1], reap: true }, b(if th { 3 } else { 2 }, 2)));
-    v.push(("two-flushes".to_string(), Hand { entries: 2, batches: vec![1, 1], reap: false }, b(if th { 3 } else { 2 }, 2)));
+    // every program with every setting of the kernel-owned other bits of the flags word
+    for extra in [0u32, 2, 4, 6] {
+        let tag = match extra {
+            0 => "".to_string(),
+            2 => " [CQ_OVERFLOW set]".to_string(),
+            4 => " [TASKRUN set]".to_string(),
+            _ => " [CQ_OVERFLOW|TASKRUN set]".to_string(),
+        };
+        let h = |batches: Vec<u32>, reap: bool| Hand { entries: 2, batches, reap, extra_bits: extra, toggler: false };
+        v.push((format!("one-entry{tag}"), h(vec![1], false), b(if th { 4 } else { 3 }, 2)));
+        v.push((format!("one-entry+reap{tag}"), h(vec![1], true), b(if th { 3 } else { 2 }, 2)));
+        v.push((format!("two-flushes{tag}"), h(vec![1, 1], false), b(if th { 3 } else { 2 }, 2)));
+        if th {
+            v.push((format!("batch-of-two+reap{tag}"), h(vec![2], true), b(2, 2)));
+            v.push((format!("three-flushes{tag}"), h(vec![1, 1, 1], false), b(2, 2)));
+        }
+    }
+    // the overflow bit coming and going at any time (third thread)
+    v.push(("one-entry [CQ_OVERFLOW toggled by a third thread]".to_string(), Hand { entries: 2, batches: vec![1], reap: false, extra_bits: 0, toggler: true }, b(if th { 3 } else { 2 }, if th { 2 } else { 1 })));
     if th {
-        v.push(("batch-of-two+reap".to_string(), Hand { entries: 2, batches: vec![2], reap: true }, b(2, 2)));
-        v.push(("three-flushes".to_string(), Hand { entries: 2, batches: vec![1, 1, 1], reap: false }, b(2, 2)));
+        v.push(("two-flushes [CQ_OVERFLOW toggled by a third thread]".to_string(), Hand { entries: 2, batches: vec![1, 1], reap: false, extra_bits: 0, toggler: true }, b(2, 2)));
     }
     v
+}
+
+/// Sequential truth table (outside the explorer the instrumented atomics are plain memory): for every value
+/// of the low three bits of the SQ flags word, `needs_wakeup()` is exactly the NEED_WAKEUP bit.
+fn truth_table(r: &mut Report) {
+    for word in 0u32..8 {
+        r.eval();
+        r.nontrivial_unique();
+        let m = new_mem();
+        unsafe { *m.sq_flags.as_ptr() = word };
+        let ring = ring_over(&m, 2);
+        let got = catch(|| ring.needs_wakeup());
+        let want = word & 1 != 0;
+        let cj = json!({"phase": "wm", "op": "needs_wakeup", "scenario": "truth-table", "word": word});
+        match got {
+            Ok(g) if g == want => r.outcome(if want { "truth-table: NEED_WAKEUP set -> true" } else { "truth-table: NEED_WAKEUP clear -> false" }),
+            Ok(g) => {
+                let key = if want { "C17:needs_wakeup:ignores-bit-when-other-flags-set" } else { "C17:needs_wakeup:true-without-bit" };
+                r.violation(key, format!("SQ flags word {word:#05b} (NEED_WAKEUP {}, CQ_OVERFLOW {}, TASKRUN {}): needs_wakeup() = {g}", word & 1, (word >> 1) & 1, (word >> 2) & 1), cj);
+            }
+            Err(p) => r.violation("C17:needs_wakeup:panic", format!("needs_wakeup() with flags word {word:#x} panicked: {p}"), cj),
+        }
+    }
 }
 
 fn choices_json(c: &[(u16, u16)]) -> Value {
@@ -304,6 +358,7 @@ fn choices_json(c: &[(u16, u16)]) -> Value {
 fn run(args: &Args) -> Report {
     let t0 = now();
     let mut r = Report::new();
+    truth_table(&mut r);
     for (name, model, budget) in programs(args.thorough) {
         let cfg = Config { budget, max_steps: 4_000, workers: n_workers().min(8), max_schedules: 0, stop_at_first: false, max_seconds: if args.thorough { 240 } else { 25 } };
         let st = ilv::explore(&model, &cfg);
@@ -350,6 +405,14 @@ fn main() {
     install_panic_hook();
     if let Some(p) = &args.replay {
         let v = read_replay(p);
+        if v["scenario"].as_str() == Some("truth-table") {
+            let mut r = Report::new();
+            truth_table(&mut r);
+            for v in r.violations.values() {
+                println!("VIOLATED {}: {}", v.key, v.desc);
+            }
+            std::process::exit(if r.violations.is_empty() { 0 } else { 1 });
+        }
         let name = v["program"].as_str().unwrap_or("one-entry");
         let Some((_, model, _)) = programs(true).into_iter().find(|x| x.0 == name) else { panic!("no such program") };
         let b = &v["budget"];
